@@ -79,10 +79,11 @@ PROPS = {
                         'NOT covered: Display/FromStr/serde impls of TraceId and SpanId (same two std calls behind fmt::Formatter / serde plumbing, which Verus cannot take)'],
     },
     'C19': {
-        'verus': [('jconv', '*'), ('dconv', '*')],
+        'verus': [('jconv', '*'), ('dconv', '*'), ('oconv', '*')],
         'kani': [],
         'assumptions': ['string conversions (Cow<str>::to_string, &Cow as &str) keep the characters (cow_str); collecting (key, value) pairs into a HashMap keeps, per key, the last value (props_to_meta); [("name", event.name)].iter().chain(props) yields that pair followed by the properties (name_then_props; the literal "name" is checked)',
-                        'NOT decided: the OpenTelemetry reporter (convert / map_events build opaque opentelemetry_sdk types), serialisation to Thrift compact / msgpack / OTLP and their well-formedness (thrift_codec, rmp_serde, opentelemetry exporters are trusted), HTTP / UDP transport',
+                        'OpenTelemetry: SpanData / SpanEvents are mirrored field by field and the other opentelemetry types are opaque with ghost accessors (units/oconv/prelude.rs); constructors (SpanContext::new, KeyValue::new, Event::new, From<u128>/From<u64> for the id types, UNIX_EPOCH + Duration::from_nanos) are assumed to store what they are given; precondition begin_time_unix_ns + duration_ns <= u64::MAX (the code adds them unchecked)',
+                        'NOT decided: serialisation to Thrift compact / msgpack / OTLP and their well-formedness (thrift_codec, rmp_serde, opentelemetry exporters are trusted), HTTP / UDP transport',
                         'exactly-once per batch for Jaeger additionally needs C20 (datagram splitting)'],
     },
     'C20': {
